@@ -77,7 +77,8 @@ REF_FUNCS = {
 }
 SELF_ARRAY = [1.0]
 SELF_ARRAY.append(SELF_ARRAY)       # an array that contains itself: it has no JSON text; read-only host global `sa`, never part of a state
-CONSTS = {'dt': datetime.datetime(2020, 1, 2, 3, 4, 5), 'rx': re.compile('a'), 'sa': SELF_ARRAY}
+HUGE = 10 ** 400                    # a host integer beyond the float range (finite, integral): read-only host globals `big`, `nbig` (F22)
+CONSTS = {'dt': datetime.datetime(2020, 1, 2, 3, 4, 5), 'rx': re.compile('a'), 'sa': SELF_ARRAY, 'big': HUGE, 'nbig': -HUGE}
 NONFINITE = {'inf': float('inf'), 'nan': float('nan')}
 
 
@@ -126,23 +127,27 @@ WRONG = {
 }
 
 
-def wrong_values(ptype, nullable=False, table=None):
+def wrong_values(ptype, nullable=False, table=None, negative_huge=False):
     """[(label, descriptor)] of the invalid values tried for one typed parameter: one value of every other type (null
     unless accepted), the self-containing array `sa` (a wrong-typed value that has no JSON text) unless arrays are
-    accepted, and - for number parameters, all of which are integer-constrained here - an infinite and a NaN number."""
+    accepted, and - for number parameters, all of which are integer-constrained here - an infinite and a NaN number
+    and the host integer 10**400 (beyond the float range; its negative too in the single-call families)."""
     out = [(t, w) for t, w in (table or WRONG).items() if t != ptype and not (t == 'null' and nullable)]
     if ptype != 'array':
         out.append(('array:self-containing', const('sa')))
     if ptype == 'number':
         out.append(('number:inf', nonfinite('inf')))
         out.append(('number:nan', nonfinite('nan')))
+        out.append(('number:10**400', const('big')))
+        if negative_huge:
+            out.append(('number:-10**400', const('nbig')))
     return out
 
 
-def n_wrong(ptype, nullable=False):
+def n_wrong(ptype, nullable=False, negative_huge=False):
     """Closed form of len(wrong_values(...)): nine types minus the accepted one, minus null when nullable, plus the
-    self-containing array when arrays are not accepted, plus inf and NaN for numbers."""
-    return 8 - (1 if nullable else 0) + (0 if ptype == 'array' else 1) + (2 if ptype == 'number' else 0)
+    self-containing array when arrays are not accepted, plus inf, NaN and 10**400 (and -10**400) for numbers."""
+    return 8 - (1 if nullable else 0) + (0 if ptype == 'array' else 1) + ((4 if negative_huge else 3) if ptype == 'number' else 0)
 
 
 def self_array_intact():
@@ -169,12 +174,12 @@ class Par:
     type (None = any) and whether null is accepted, whether it may be omitted, and the base value used while another
     parameter is being varied through the wrong types."""
 
-    def __init__(self, valid, type_=None, nullable=False, optional=False):
+    def __init__(self, valid, type_=None, nullable=False, optional=False, base=None):
         self.valid = valid
         self.type = type_
         self.nullable = nullable
         self.optional = optional
-        self.base = valid[0]
+        self.base = valid[0] if base is None else base
 
 
 def alphabet(L):  # pylint: disable=too-many-locals,too-many-statements
@@ -190,7 +195,7 @@ def alphabet(L):  # pylint: disable=too-many-locals,too-many-statements
     obj2 = obj + [fresh("objectNew('k2', 'x')", lambda: {'k2': 'x'}), fresh("objectNew('k1', null, 'k2', 1.0)", lambda: {'k1': None, 'k2': 1.0})]
     aP = lambda: Par(arr, 'array')  # pylint: disable=unnecessary-lambda-assignment
     oP = lambda: Par(obj, 'object')  # pylint: disable=unnecessary-lambda-assignment
-    iP = lambda **kw: Par(idx, 'number', **kw)  # pylint: disable=unnecessary-lambda-assignment
+    iP = lambda **kw: Par(idx, 'number', base=num(0), **kw)  # pylint: disable=unnecessary-lambda-assignment
     sig = [
         ('arrayCopy', [aP()]),
         ('arrayDelete', [aP(), iP()]),
@@ -198,13 +203,13 @@ def alphabet(L):  # pylint: disable=too-many-locals,too-many-statements
         ('arrayGet', [aP(), iP()]),
         ('arrayIndexOf', [aP(), Par(val + [fn('isOne'), fn('isArr')], optional=True), iP(optional=True)]),
         ('arrayJoin', [aP(), Par(seps, 'string')]),
-        ('arrayLastIndexOf', [aP(), Par(val + [fn('isOne'), fn('isArr')], optional=True), Par(idx + [NULL], 'number', nullable=True, optional=True)]),
+        ('arrayLastIndexOf', [aP(), Par(val + [fn('isOne'), fn('isArr')], optional=True), Par(idx + [NULL], 'number', nullable=True, optional=True, base=num(0))]),
         ('arrayLength', [aP()]),
         ('arrayNewSize', [iP(optional=True), Par(val, optional=True)]),
         ('arrayPop', [aP()]),
         ('arraySet', [aP(), iP(), Par(val, optional=True)]),
         ('arrayShift', [aP()]),
-        ('arraySlice', [aP(), iP(optional=True), Par(idx + [NULL], 'number', nullable=True, optional=True)]),
+        ('arraySlice', [aP(), iP(optional=True), Par(idx + [NULL], 'number', nullable=True, optional=True, base=num(0))]),
         ('arraySort', [aP(), Par([NULL, fn('cmpRev')], 'function', nullable=True, optional=True)]),
         ('objectAssign', [oP(), Par(obj2, 'object')]),
         ('objectCopy', [oP()]),
@@ -634,7 +639,7 @@ STRING_SIGS = {
 COUNTS = [-1.0, 0.0, 1.0, 2.0, 3.0, 1.5]
 NEW_VALUES = [NULL, TRUE, ('k', False, 'false'), num(1), num(1.5), num(-2), num(0), var('arr'), var('obj'), fn('isOne'), const('rx')]
 CODES = [97.0, 32.0, 233.0, 128512.0, 0.0]
-BADCODES = [num(-1), num(1.5), NULL, TRUE, lit('a'), var('arr'), var('obj'), const('sa'), nonfinite('inf'), nonfinite('nan')]
+BADCODES = [num(-1), num(1.5), NULL, TRUE, lit('a'), var('arr'), var('obj'), const('sa'), nonfinite('inf'), nonfinite('nan'), const('big'), const('nbig')]
 
 
 def string_domain(kind, first, maxlen):
@@ -662,7 +667,7 @@ def string_cases(name, firsts, maxlen):
         for base0 in ('ab', ''):
             base = [('str', base0)] + [('str', 'b') if k == 'S' else num(0) for k in kinds[1:]]
             for pos, k in enumerate(kinds):
-                for _, w in wrong_values('string' if k == 'S' else 'number', k == 'N', SWRONG):
+                for _, w in wrong_values('string' if k == 'S' else 'number', k == 'N', SWRONG, True):
                     yield base[:pos] + [w] + base[pos + 1:]
             for m in range(0, required):
                 yield base[:m]
@@ -682,7 +687,7 @@ def string_count(name, maxlen):
             total += prod
     wrong = 0
     for k in kinds:
-        wrong += n_wrong('string' if k == 'S' else 'number', k == 'N')
+        wrong += n_wrong('string' if k == 'S' else 'number', k == 'N', True)
     return total + 2 * (wrong + required + 1)
 
 
